@@ -232,6 +232,13 @@ def oracle(case, ob):
                 continue
             between = [w2 for w2, c2 in log[pre[-1] + 1:j] if w2 != 0]
             ent = case.get("interrupts", {}).get(str(c - 8000))
+            # superseded by a later throw at the same target (from the environment or another worker)?
+            tbl = case.get("interrupts", {})
+            rivals = [c2 for w2, c2 in log[pre[-1] + 1:j]
+                      if 7000 <= c2 < 8000 and tbl.get(str(c2 - 7000), [None])[0] == (ent[0] if ent else None)]
+            env_throw = any(a[0] == "do" and a[1][0] in ("throw", "cancel") and ent and a[1][1] == ent[0] for a in acts)
+            if rivals or env_throw:
+                continue
             if ent and between and (ent[0] + 1) in between and between[0] != ent[0] + 1:
                 return f"task_interrupt({ent[0]}) by task {w - 1}: task {between[0] - 1} ran before the target"
     return None
